@@ -60,6 +60,9 @@ CONTEXTS = [
     ("ƛ", ";"), ("'", ";"), ("µ", ";"), ("⟨", "⟩"), ("⟨1|", "⟩"), ("⟨", "|2⟩"), ("@f|", ";"), ("@f:a|", ";"),
     ("v", "1"), ("₌", "+1"), ("₌+", "1"), ("≬", "++1"), ("≬+", "+1"), ("≬++", "1"), ("⁽", "1"), ("‡", "+1"),
     ("‡+", "1"), ("&", "1"), ("~", "1"), ("ß", "1"), ("ƒ", "1"), ("₍", "+1"),
+    # a modifier whose literal operand is the last thing in the program / in its branch
+    ("v", ""), ("⁽", ""), ("ß", ""), ("&", ""), ("~", ""), ("ƒ", ""), ("₌+", ""), ("₍+", ""), ("≬++", ""), ("‡+", ""), ("5 ß", ""),
+    ("[1|ß", "]"), ("λv", ";"), ("⟨⁽", "⟩"), ("(₌+", ")"), ("{1|~", "}"), ("[ß", "|2]"),
     ("[[", "]1]"), ("(λ", ";)"), ("⟨[1|", "]|2⟩"), ("{[", "|X]}"), ("λƛ", ";;1"), ("[(", ")|{1}]"),
 ]
 
